@@ -88,6 +88,18 @@ def aborts(ctx, reach, fns):
                                 outer = pat_alts(arm["pat"])
                                 if outer and all(x.get("k") == "plit" and x.get("lk") == "str" for x in outer) and {x["v"] for x in outer} <= named:
                                     dead = True
+            if inner is not None and not dead:
+                # the catch-all arm of a match whose scrutinee is a known literal on this path (a base operator found by a lookup and handed to
+                # an inlined helper) is dead when the match names that literal explicitly
+                sv = resolve(peel(inner["scrut"]))
+                for _ in range(4):
+                    if sv.get("k") == "local" and sv["id"] in LET_INITS:
+                        sv = resolve(peel(LET_INITS[sv["id"]]))
+                if sv.get("k") == "lit" and isinstance(sv.get("v"), str):
+                    in_catch_all = any(contains(arm["body"], node) and all(x.get("k") in ("pwild", "pbind") for x in pat_alts(arm["pat"])) for arm in inner["arms"])
+                    named_ = {alt["v"] for arm in inner["arms"] for alt in pat_alts(arm["pat"]) if alt.get("k") == "plit" and "guard" not in arm}
+                    if in_catch_all and sv["v"] in named_:
+                        dead = True
             if not ops:
                 # the operator may have been classified first (`LineKind::classify(op)` .. `match kind { .. }`): the operators that select this path
                 from .. import norm as norm__
